@@ -52,8 +52,9 @@ func HTMLAttribute(in string) string {
 		} else if c == 62 {
 			// >
 			out.WriteString("&gt;")
-		} else if c <= 31 && c != 9 && c != 10 && c != 13 {
-			// Non-whitespace
+		} else if (c <= 31 && c != 9 && c != 10 && c != 13) || (c >= 127 && c <= 159) {
+			// Control characters other than whitespace. (A numeric reference to
+			// 128..159 would be remapped through windows-1252 by an HTML parser.)
 			out.WriteString("&#xFFFD;")
 		} else {
 			// UTF-8
